@@ -47,8 +47,8 @@ type c34op struct {
 }
 
 func (o c34op) String() string {
-	if o.kind == "W" {
-		return fmt.Sprintf("W%d", o.n)
+	if o.kind == "W" || o.kind == "R" {
+		return fmt.Sprintf("%s%d", o.kind, o.n)
 	}
 	return o.kind
 }
@@ -61,15 +61,19 @@ type c34stream struct {
 	ops       []c34op // instructions this stream's handler may be given in this family
 	maxWrites int
 	maxFlush  int
+	body      int  // request body octets the client sends right after the request HEADERS (POST only)
+	expect    bool // request carries Expect: 100-continue
+	maxReads  int
 
 	script    []c34op // instructions given but not executed yet
 	nWrites   int
 	nFlush    int
+	nReads    int
 	retGiven  bool
 	attempted []byte // bytes the handler produced (passed to Write), in order
 
 	got        []byte // DATA payload received
-	gotHeaders bool
+	gotHeaders bool // final (non-1xx) response HEADERS received
 	ended      bool // END_STREAM received
 	srvRST     bool // server sent RST_STREAM
 	cliRST     bool // client sent RST_STREAM
@@ -117,6 +121,9 @@ type c34model struct {
 	// coverage counters
 	nInflight int // quiescent points with a frame blocked half-way to the stalled client
 	nEarlier  int // frames attributed to an earlier quiescent point than the one at which they were seen
+	nDeepQ    int // quiescent points with three or more frames of one stream queued in the scheduler
+	nSrvWU    int // WINDOW_UPDATE frames sent by the server (credit for request bodies)
+	nInterim  int // 100-continue header blocks seen
 	nTight    int // DATA frames that used a window or the frame size limit up to the last octet
 	fcErr    string // the server answered a client frame with FLOW_CONTROL_ERROR (observation, not judged)
 	hist     []string
@@ -158,6 +165,14 @@ func (m *c34model) snap() {
 	if e.sc != nil && e.sc.writingFrame && e.sc.needsFrameFlush && buffered == 0 {
 		limit++
 		m.nInflight++
+	}
+	if e.sc != nil {
+		for _, q := range e.sc.writeSched.sq {
+			if len(q.s) >= 3 {
+				m.nDeepQ++
+				break
+			}
+		}
 	}
 	sn := c34snap{limit: limit, wu0: m.wu0, nSet: len(m.settings)}
 	for _, s := range m.streams {
@@ -220,8 +235,17 @@ func (m *c34model) open(s *c34stream) {
 	if s.post {
 		method = "POST"
 	}
-	m.e.request(s.id, method, s.path, !s.post)
+	var extra []string
+	if s.expect {
+		extra = []string{"expect", "100-continue"}
+	}
+	m.e.request(s.id, method, s.path, !s.post, extra...)
 	m.snap()
+	if s.post && s.body > 0 {
+		m.e.fr.WriteData(s.id, false, bytes.Repeat([]byte{'b'}, s.body))
+		m.e.flushFrame()
+		m.snap()
+	}
 }
 
 // pump lets every handler run the instructions it was given, one command at a time, until
@@ -252,6 +276,8 @@ func (m *c34model) pump() {
 				h.do(h2cmd{op: "writebytes", v: string(p)})
 			case "F":
 				h.do(h2cmd{op: "flush"})
+			case "R":
+				h.do(h2cmd{op: "read", n: op.n})
 			case "RET":
 				h.do(h2cmd{op: "return"})
 			}
@@ -324,6 +350,9 @@ func (m *c34model) check(f h2frame, k int) {
 		}
 		return
 	case FrameHeaders, FrameContinuation, FrameData:
+	case FrameWindowUpdate:
+		m.nSrvWU++ // request-body credit: legal on a stream in any state, order not observable
+		return
 	default:
 		return
 	}
@@ -342,7 +371,23 @@ func (m *c34model) check(f h2frame, k int) {
 	}
 	if f.Type != FrameData {
 		if f.Type == FrameHeaders {
-			s.gotHeaders = true
+			// an informational (1xx) header block precedes the final one and carries nothing else
+			info := false
+			for _, hf := range f.Fields {
+				if hf.Name == ":status" && strings.HasPrefix(hf.Value, "1") {
+					info = true
+				}
+			}
+			switch {
+			case info && s.gotHeaders:
+				m.violation("interim-headers-after-final-headers", fmt.Sprintf("%v arrived on stream %d after the final response HEADERS", f, s.id))
+			case info && f.EndStream:
+				m.violation("interim-headers-end-stream", fmt.Sprintf("%v ends stream %d", f, s.id))
+			case info:
+				m.nInterim++
+			default:
+				s.gotHeaders = true
+			}
 		}
 		if f.EndStream {
 			m.end(s, f)
@@ -454,6 +499,7 @@ var (
 	c34W4  = c34op{"W", 4}
 	c34W9  = c34op{"W", 9}
 	c34Wbg = c34op{"W", 40000}
+	c34R2  = c34op{"R", 2}
 	c34F   = c34op{"F", 0}
 	c34RET = c34op{"RET", 0}
 )
@@ -571,6 +617,26 @@ func c34families(r *vk.Run) []c34family {
 			rstOnly: []int{0},
 		},
 		{
+			// request bodies: both streams are POSTs whose body is on the server already (stream 3
+			// with Expect: 100-continue); every handler Read queues a stream WINDOW_UPDATE (and the
+			// first one on stream 3 a 100-continue header block) without waiting, the response
+			// HEADERS are queued without waiting too, so with the client not reading three and
+			// more frames of one stream pile up in the scheduler behind the blocked writer
+			name: "body", depth: r.Pick(5, 7),
+			streams: func() []*c34stream {
+				return []*c34stream{
+					{idx: 0, id: 1, path: "/s1", post: true, body: 6, ops: []c34op{c34R2, c34W4, c34RET}, maxReads: 3, maxWrites: 1},
+					{idx: 1, id: 3, path: "/s3", post: true, body: 4, expect: true, ops: []c34op{c34R2, c34W9, c34RET}, maxReads: 2, maxWrites: 1},
+				}
+			},
+			prefix: func(m *c34model, ch *vk.Chooser) {
+				m.sendSettings(5, -1)
+				c34openAll(m)
+			},
+			wus:   []c34wu{{1, 3}},
+			stall: true,
+		},
+		{
 			// large bodies: splitting at the maximum frame size, the untouched 65535 connection
 			// window binds, frames block half-written on a stalled client
 			name: "big", depth: r.Pick(4, 6),
@@ -602,6 +668,10 @@ func (m *c34model) events(f *c34family) []c34event {
 				if s.nFlush >= s.maxFlush {
 					continue
 				}
+			case "R":
+				if s.nReads >= s.maxReads {
+					continue
+				}
 			}
 			evs = append(evs, c34event{fmt.Sprintf("h%d:%v", s.id, op), func() {
 				switch op.kind {
@@ -609,6 +679,8 @@ func (m *c34model) events(f *c34family) []c34event {
 					s.nWrites++
 				case "F":
 					s.nFlush++
+				case "R":
+					s.nReads++
 				case "RET":
 					s.retGiven = true
 				}
@@ -774,6 +846,9 @@ func c34exec(t *testing.T, r *vk.Run, f *c34family, ch *vk.Chooser, nth int64) {
 		}
 		r.Outcome(cls)
 		r.Add("data_frames_checked", int64(m.nData))
+		r.Add("interim_100_continue_header_blocks", int64(m.nInterim))
+		r.Add("server_window_updates_seen", int64(m.nSrvWU))
+		r.Add("quiescent_points_with_3plus_frames_queued_on_one_stream", int64(m.nDeepQ))
 		r.Add("data_frames_exactly_filling_a_limit", int64(m.nTight))
 		r.Add("frames_attributed_to_an_earlier_quiescent_point", int64(m.nEarlier))
 		r.Add("quiescent_points_with_frame_blocked_on_stalled_client", int64(m.nInflight))
@@ -808,7 +883,7 @@ func TestVerifC34(t *testing.T) {
 	// The internal deadline is split between the families (cumulative shares), so that a slow
 	// machine cuts every family short a little instead of dropping the last ones entirely.
 	budget, _ := strconv.ParseFloat(os.Getenv("VERIF_BUDGET_S"), 64)
-	share := map[string]float64{"win": 0.28, "drip": 0.40, "set": 0.55, "rst": 0.65, "conn": 0.78, "connrst": 0.92, "big": 1.0}
+	share := map[string]float64{"win": 0.28, "drip": 0.40, "set": 0.55, "rst": 0.65, "conn": 0.78, "connrst": 0.86, "body": 0.94, "big": 1.0}
 	start := time.Now()
 	for _, f := range c34families(r) {
 		f := f
